@@ -69,6 +69,7 @@ type fctx struct {
 	ntemp     int
 	tailParam string              // [seq] the parameter standing for a timed tail
 	nilErr    map[*ast.Ident]bool // [ext:T20] occurrences of nil that stand for the nil error
+	inRet     int                 // [BitsCode] > 0 while the operands of a `return` are translated (struct literals may then hold named slices)
 }
 
 func (c *fctx) fresh(prefix string) string {
@@ -398,7 +399,12 @@ func (c *fctx) expr(e ast.Expr, en *env, k func(string) string) string {
 				})
 			})
 		})
-	case *ast.CompositeLit: // [ext:T08] []byte{a, b}
+	case *ast.CompositeLit: // [ext:T08] []byte{a, b}; [BitsCode] S{f: e, …} of a translated struct
+		if tv, ok := t.info.Types[x]; ok && tv.Type != nil {
+			if _, isStruct := tv.Type.Underlying().(*types.Struct); isStruct {
+				return c.structLit(x, en, k)
+			}
+		}
 		return c.complit08(x, en, k)
 	case *ast.CallExpr:
 		return c.call(x, en, func(vs []string) string {
@@ -575,7 +581,7 @@ func (c *fctx) call(x *ast.CallExpr, en *env, k func([]string) string) string {
 		if !((to.k == kInt || to.k == kUint) && (from.k == kInt || from.k == kUint)) && !(to.k == from.k && to.k != kStruct) {
 			t.fail(x, "conversion from %s to %s", t.info.Types[x.Args[0]].Type, t.info.Types[x].Type)
 		}
-		if to.k == kInt && to.bits == 0 && from.k == kUint && from.bits == 64 {
+		if to.k == kInt && to.bits == 0 && from.k == kUint && from.bits == 64 && !c.below63(x.Args[0]) {
 			t.fail(x, "conversion of a 64-bit unsigned value to a signed integer (overflow is not modelled)")
 		}
 		return c.expr(x.Args[0], en, func(a string) string {
@@ -650,6 +656,9 @@ func (c *fctx) call(x *ast.CallExpr, en *env, k func([]string) string) string {
 	case "":
 	default:
 		t.fail(x, "builtin %s", b)
+	}
+	if n := t.onesCountCall(x); n != 0 { // [BitsCode] math/bits.OnesCountN
+		return c.args(x.Args, en, func(vs []string) string { return k([]string{fmt.Sprintf("(ones_count %d %s)", n, vs[0])}) })
 	}
 	if t.funcValueCall(x) != nil { // a function value (trans_func.go)
 		return c.callFuncValue(x, en, k)
@@ -837,4 +846,107 @@ func (c *fctx) store(lhs ast.Expr, val string, en *env, k func() string) string 
 	}
 	t.fail(lhs, "assignment to %s", nodeDesc(lhs))
 	return ""
+}
+
+// ---- [BitsCode] int(u) for a 64-bit unsigned u that is syntactically below 2^63 -----------------------------------
+// below63 reports whether the unsigned 64-bit expression e is below 2^63 for every value of its variables in
+// [0, 2^64): a constant, `u >> c` (constant c >= 1), `u & c` / `c & u` (constant 0 <= c < 2^63), `u % c` (constant
+// 0 < c <= 2^63), `u / c` (constant c >= 2), a conversion from a narrower unsigned type.  Then int(e) is the identity.
+func (c *fctx) below63(e ast.Expr) bool {
+	t := c.t
+	lim := constant.Shift(constant.MakeInt64(1), token.SHL, 63)
+	cst := func(e ast.Expr) (constant.Value, bool) {
+		tv, ok := t.info.Types[e]
+		if !ok || tv.Value == nil || tv.Value.Kind() != constant.Int {
+			return nil, false
+		}
+		return tv.Value, true
+	}
+	if v, ok := cst(e); ok {
+		return constant.Compare(v, token.GEQ, constant.MakeInt64(0)) && constant.Compare(v, token.LSS, lim)
+	}
+	switch x := e.(type) {
+	case *ast.ParenExpr:
+		return c.below63(x.X)
+	case *ast.BinaryExpr:
+		l, lok := cst(x.X)
+		r, rok := cst(x.Y)
+		small := func(v constant.Value) bool {
+			return constant.Compare(v, token.GEQ, constant.MakeInt64(0)) && constant.Compare(v, token.LSS, lim)
+		}
+		switch x.Op {
+		case token.SHR:
+			return rok && constant.Compare(r, token.GEQ, constant.MakeInt64(1))
+		case token.AND:
+			return (rok && small(r)) || (lok && small(l)) || c.below63(x.X) || c.below63(x.Y)
+		case token.REM:
+			return rok && constant.Compare(r, token.GTR, constant.MakeInt64(0)) && constant.Compare(r, token.LEQ, lim)
+		case token.QUO:
+			return rok && constant.Compare(r, token.GEQ, constant.MakeInt64(2))
+		}
+	case *ast.CallExpr:
+		if c.isConversion(x) && len(x.Args) == 1 {
+			if from := t.exprType(x.Args[0]); from.k == kUint && from.bits < 64 {
+				return true
+			}
+			if from := t.exprType(x.Args[0]); from.k == kUint {
+				return c.below63(x.Args[0])
+			}
+		}
+	}
+	return false
+}
+
+// ---- [BitsCode] S{f: e, …} for a translated struct S ----------------------------------------------------------------
+// structLit: a composite literal of a translated struct type (a value, not &S{…}) becomes `mkS v1 … vn` (fields not
+// named: their zero value; operands evaluated in source order).  A slice-typed field may be initialised from a
+// variable / field / slice of one only in the operand of a `return` (the locals die there; aliasing across calls is the
+// documented limit of the list model) — elsewhere only from a fresh value (make, nil, append to a fresh value).
+func (c *fctx) structLit(x *ast.CompositeLit, en *env, k func(string) string) string {
+	t := c.t
+	g := t.exprType(x)
+	if g.k != kStruct || g.ptr {
+		t.fail(x, "composite literal of type %s (only translated struct types)", t.info.Types[x].Type)
+	}
+	si := g.st
+	idx := make([]int, len(x.Elts))
+	vals := make([]ast.Expr, len(x.Elts))
+	for i, el := range x.Elts {
+		if kv, ok := el.(*ast.KeyValueExpr); ok {
+			id, ok := kv.Key.(*ast.Ident)
+			idx[i] = -1
+			for j, f := range si.fields {
+				if ok && f == id.Name {
+					idx[i] = j
+				}
+			}
+			if idx[i] < 0 {
+				t.fail(el, "field key in a literal of %s", si.name)
+			}
+			vals[i] = kv.Value
+		} else {
+			if len(x.Elts) != len(si.fields) {
+				t.fail(x, "positional literal of %s with %d of %d fields", si.name, len(x.Elts), len(si.fields))
+			}
+			idx[i], vals[i] = i, el
+		}
+		if si.ftypes[idx[i]].k == kSlice && c.inRet == 0 {
+			if src, shares := c.aliasSource(vals[i], en); shares {
+				t.fail(el, "struct literal field %s.%s initialised from %s outside a return (aliasing is not modelled)", si.name, si.fields[idx[i]], src)
+			}
+		}
+	}
+	return c.args(vals, en, func(vs []string) string {
+		term := "(mk" + si.name
+		for j, ft := range si.ftypes {
+			v := ft.zero()
+			for i := range idx {
+				if idx[i] == j {
+					v = vs[i]
+				}
+			}
+			term += " " + v
+		}
+		return k(term + ")")
+	})
 }
